@@ -133,13 +133,47 @@ fn byte_domain() -> Domain {
     d.max_nodes = 14;
     d.max_depth = 5;
     d.max_docs = 3;
-    d.allow_wide = false;
+    // wide documents matter for rendering (sorting more than 20 children or attributes)
+    d.allow_wide = true;
     d
 }
 
 /// tapes.a = structure, tapes.b = surface, `m` = mutation tape (caller strips its own config bytes first)
 pub fn decode_bytes(tapes: &Tapes, m: &mut Tape) -> ByteCase {
-    match m.weighted(&[10, 2, 2, 1, 3]) {
+    match m.weighted(&[10, 2, 2, 1, 3, 2]) {
+        5 => {
+            // one parent with 21..80 children (and as many attributes) whose names are built combinatorially,
+            // with and without prefixes: exercises sorting / lookup code paths that switch behaviour with size
+            let n = 21 + m.choose(60);
+            let prefixes: [&str; 5] = ["", "", "a:", "m:", "z:"];
+            let mut v = b"<r".to_vec();
+            let na = m.choose(40);
+            let mut seen_attr: Vec<String> = Vec::new();
+            for _ in 0..na {
+                let name = format!("{}{}{}", prefixes[m.choose(5)], (b'a' + m.choose(26) as u8) as char, (b'a' + m.choose(26) as u8) as char);
+                if seen_attr.contains(&name) {
+                    continue;
+                }
+                v.extend_from_slice(format!(" {}='1'", name).as_bytes());
+                seen_attr.push(name);
+            }
+            v.push(b'>');
+            for _ in 0..n {
+                let name = format!("{}{}{}", prefixes[m.choose(5)], (b'a' + m.choose(26) as u8) as char, (b'a' + m.choose(26) as u8) as char);
+                match m.choose(3) {
+                    0 => v.extend_from_slice(format!("<{}/>", name).as_bytes()),
+                    1 => v.extend_from_slice(format!("<{} k='v'>t</{}>", name, name).as_bytes()),
+                    _ => v.extend_from_slice(format!("<{}><x/></{}>", name, name).as_bytes()),
+                }
+            }
+            v.extend_from_slice(b"</r>");
+            let mut inputs = vec![v.clone()];
+            if m.chance(80) {
+                inputs.push(v);
+            }
+            let k = inputs.len();
+            ByteCase { inputs, kind: "many_named_children", mutated: vec![false; k] }
+        }
         4 => {
             // fragments: several top-level pieces per input (multi-root inputs are accepted by the reader),
             // small alphabet so that the same names meet again across parse / extend / extend
